@@ -11,6 +11,7 @@ Inductive trap_kind :=
                      task start, mid-task, result pickling *)
 | TMidSend        (* dies after writing part of the result message *)
 | TAfterSend      (* dies after the whole result message was written *)
+| TAfterSendSeen  (* same, and the manager thread handles the death before any other result arrives *)
 | TGarbage        (* returns bytes that do not unpickle in the parent *)
 | TBadArgs.       (* (at Take) the call item does not unpickle in the worker *)
 
@@ -18,7 +19,9 @@ Record dstate := mkD {
   dpool : pool;
   traps : list (nat * trap_kind);     (* task index within the current call -> fault *)
   killed : list nat;                  (* pids killed so far *)
-  seen : list nat                     (* processes of the executor at the time of a fault *)
+  seen : list nat;                    (* processes of the executor at the time of a fault *)
+  masked : bool                       (* the manager thread is not scheduled at the instants at which it would
+                                         find only a sentinel (or nothing) to read: the death stays unnoticed *)
 }.
 
 Definition trap_of (d : dstate) (e : exec) (id : nat) : option trap_kind :=
@@ -32,8 +35,20 @@ Definition trap_of (d : dstate) (e : exec) (id : nat) : option trap_kind :=
       end in find (traps d)
   end.
 
-Definition dex (d : dstate) (ev : event) : dstate := mkD (pstep (dpool d) (Ex ev)) (traps d) (killed d) (seen d).
-Definition dp (d : dstate) (ev : pevent) : dstate := mkD (pstep (dpool d) ev) (traps d) (killed d) (seen d).
+Definition dex (d : dstate) (ev : event) : dstate := mkD (pstep (dpool d) (Ex ev)) (traps d) (killed d) (seen d) (masked d).
+Definition dp (d : dstate) (ev : pevent) : dstate := mkD (pstep (dpool d) ev) (traps d) (killed d) (seen d) (masked d).
+
+(* one iteration of the manager thread.  When [masked], it is not scheduled at an instant at which the
+   result pipe and the wake-up pipe are both empty (the only thing it could do there is notice a death). *)
+Definition mgr_turn (d : dstate) : dstate :=
+  match cur (dpool d) with
+  | Some e =>
+    if (masked d && match resq e with [] => negb (wakeup e) | _ => false end)%bool then d
+    else dex (dex d ManagerWake) Feed
+  | None => d
+  end.
+
+Fixpoint iter {A} (n : nat) (f : A -> A) (a : A) : A := match n with O => a | S k => iter k f (f a) end.
 
 (* the worker finishes (or fails to finish) the task it holds *)
 Definition finish (p : nat) (d : dstate) : dstate :=
@@ -43,10 +58,15 @@ Definition finish (p : nat) (d : dstate) : dstate :=
     match wk e p with
     | WBusy id =>
       match trap_of d e id with
-      | Some TDie | Some TBadArgs => mkD (pstep (dpool d) (Ex (Die p))) (traps d) (p :: killed d) (seen d)
-      | Some TMidSend => mkD (pstep (dpool d) (Ex (DieMidSend p))) (traps d) (p :: killed d) (seen d)
+      | Some TDie | Some TBadArgs => mkD (pstep (dpool d) (Ex (Die p))) (traps d) (p :: killed d) (seen d) (masked d)
+      | Some TMidSend => mkD (pstep (dpool d) (Ex (DieMidSend p))) (traps d) (p :: killed d) (seen d) (masked d)
       | Some TAfterSend =>
-        mkD (pstep (pstep (dpool d) (Ex (Result p (Z.of_nat id)))) (Ex (Die p))) (traps d) (p :: killed d) (seen d)
+        mkD (pstep (pstep (dpool d) (Ex (Result p (Z.of_nat id)))) (Ex (Die p))) (traps d) (p :: killed d) (seen d) (masked d)
+      | Some TAfterSendSeen =>
+        let d1 := mkD (pstep (pstep (dpool d) (Ex (Result p (Z.of_nat id)))) (Ex (Die p))) (traps d) (p :: killed d)
+                      (seen d) false in
+        let n := match cur (dpool d1) with Some e1 => length (resq e1) + 3 | None => 0 end in
+        mkD (dpool (iter n mgr_turn d1)) (traps d) (p :: killed d) (seen d) (masked d)
       | Some TGarbage => dex d (ResultGarbage p)
       | None => dex d (Result p (Z.of_nat id))
       end
@@ -64,7 +84,7 @@ Definition take (p : nat) (d : dstate) : dstate :=
     match callq e with
     | id :: _ => match trap_of d e id with
                  | Some TBadArgs => match wk e p with
-                                    | WIdle => mkD (pstep (dpool d) (Ex (BadArgs p))) (traps d) (p :: killed d) (seen d)
+                                    | WIdle => mkD (pstep (dpool d) (Ex (BadArgs p))) (traps d) (p :: killed d) (seen d) (masked d)
                                     | _ => d
                                     end
                  | _ => dex d (Take p)
@@ -74,7 +94,6 @@ Definition take (p : nat) (d : dstate) : dstate :=
   | None => d
   end.
 
-Definition mgr_turn (d : dstate) : dstate := dex (dex d ManagerWake) Feed.
 
 (* one scheduling round: every worker takes a task and finishes it, the manager loops four times,
    the caller dispatches one more task, polls, completes an abort if one is in progress *)
@@ -94,9 +113,8 @@ Inductive macro :=
 | MRounds (n : nat)
 | MDispatch (n : nat)
 | MKillIdle (j : nat)                                   (* kill the j-th process of the executor from outside *)
+| MMask (b : bool)                                      (* the manager stops / resumes noticing deaths *)
 | MMgr (n : nat).                                       (* let the manager thread loop n times *)
-
-Fixpoint iter {A} (n : nat) (f : A -> A) (a : A) : A := match n with O => a | S k => iter k f (f a) end.
 
 Definition dmacro (d : dstate) (m : macro) : dstate :=
   match m with
@@ -104,20 +122,21 @@ Definition dmacro (d : dstate) (m : macro) : dstate :=
   | MWithExit => dp d WithExit
   | MCall n burst tr =>
     let d1 := mkD (pstep (dpool d) (CallBegin n)) tr (killed d)
-                  (match tr with [] => seen d | _ => cur_procs d ++ seen d end) in
+                  (match tr with [] => seen d | _ => cur_procs d ++ seen d end) (masked d) in
     iter burst (fun d => dp d Dispatch) d1
   | MDispatch n => iter n (fun d => dp d Dispatch) d
   | MRounds n => rounds n d
   | MKillIdle j =>
     match nth_error (cur_procs d) j with
-    | Some p => mkD (pstep (dpool d) (Ex (Die p))) (traps d) (p :: killed d) (cur_procs d ++ seen d)
+    | Some p => mkD (pstep (dpool d) (Ex (Die p))) (traps d) (p :: killed d) (cur_procs d ++ seen d) (masked d)
     | None => d
     end
+  | MMask b => mkD (dpool d) (traps d) (killed d) (seen d) b
   | MMgr n => iter n mgr_turn d
   end.
 
 Definition drive (mw qc : nat) (ms : list macro) : dstate :=
-  fold_left dmacro ms (mkD (init_pool mw qc) [] [] []).
+  fold_left dmacro ms (mkD (init_pool mw qc) [] [] [] false).
 
 (* ---- what the check prints: outcome classes (oldest call first), whether a call is still
    blocked at the end, whether the manager is stuck, and whether the processes of the final executor
